@@ -736,6 +736,8 @@ M("b3-input-wires-unchecked", "C11", "fire B3", "src/convert.rs",
 """, "", "a gate reading a wire beyond the declared count panics")
 
 # ---------------------------------------------------------------- C09
+REVERT("revert-enum-tag-checked", "C09", "fire L16", "b615982", "pre-fix tree: variants[tag] with a tag read from the bits")
+REVERT("revert-range-literal-print-parse", "C09", "fire L15", "433fb92", "pre-fix tree: range end printed with suffix unconditionally; signed range stays a Literal::Range")
 REVERT("revert-range-literal-signed-gate", "C09", "fire L14", "9da2990", "pre-fix tree: is_of_type accepts a Range only for unsigned element types while the checker re-types ranges for signed ones")
 REVERT("revert-numeric-range", "C09", "fire L1", "45196da", "pre-fix tree: out-of-range numbers accepted and truncated")
 REVERT("revert-enum-arity", "C09", "fire L2", "2937f1e", "pre-fix tree: enum literal arity unchecked")
